@@ -74,3 +74,23 @@ contract("bond.BondDescriptor.generate_string#text", props=["C01"],
          requires=["implies(self.descriptor == '', self.descriptor_id == '')"],       # class invariant (established by __init__#parse: empty-symbol-only-for-the-empty-text)
          ensures=list(_TXT), labels=_TXT, modifies=[], allocates=False,
          loops={1: dict(anchor="t in self.transitions", inv=["len(string) >= 2 and string[0] == '['"], locals={"string": STR}, modifies=[], allocates=False)})
+
+
+# ---- round trip of one descriptor text (C01), as a lemma over the two verified contracts: the text printed without extensions for a non-empty symbol (generate_string#text,
+# first clause), parsed again behind some non-empty preceding characters (__init__#parse: symbol / id clauses), gives back symbol and id.  The only extra hypotheses are the
+# axioms on builtins the engine uses everywhere: int(str(k).strip()) == k and str(k) is a non-empty text without '|'.
+_RT_HYPS = ["(d.descriptor == '$' or d.descriptor == '<' or d.descriptor == '>') and len(pc) > 0",      # a descriptor with a non-empty symbol (lemma variables carry no sort invariant)
+            "t == f'[{d.descriptor}{d.descriptor_id}]'",                                                   # generate_string#text, extension False
+            "implies(t != '[]' and len(pc) > 0, p.descriptor == t[1])",                                    # __init__#parse
+            "implies(t != '[]' and len(pc) > 0 and '|' not in t and len(t) == 3, p.descriptor_id == '')",
+            "implies(t != '[]' and len(pc) > 0 and '|' not in t and len(t) > 3, p.descriptor_id == parse_int(t[2:len(t) - 1].strip()))",
+            # axioms on int <-> text, at the id that is printed (n is that id when one is written)
+            "implies(not (d.descriptor_id == ''), d.descriptor_id == n)",
+            "parse_int(f'{n}'.strip()) == n and '|' not in f'{n}' and len(f'{n}') >= 1"]
+_RT_VARS = dict(d=Ref("BondDescriptor"), p=Ref("BondDescriptor"), t=STR, pc=STR, n=INT)
+lemma("descriptor_text_round_trip_symbol", _RT_VARS, "p.descriptor == d.descriptor", hyps=_RT_HYPS, props=["C01"],
+      note="parse(print(d)) recovers the symbol of a weight-less descriptor; composed from the postconditions of the two verified functions")
+lemma("descriptor_text_round_trip_no_id", _RT_VARS, "p.descriptor_id == ''", hyps=_RT_HYPS + ["d.descriptor_id == ''"], props=["C01"],
+      note="parse(print(d)) of a descriptor without id has no id")
+lemma("descriptor_text_round_trip_id", _RT_VARS, "p.descriptor_id == d.descriptor_id", hyps=_RT_HYPS + ["not (d.descriptor_id == '')"], props=["C01"],
+      note="parse(print(d)) recovers the id of a weight-less descriptor")
